@@ -99,7 +99,9 @@ TrStats    == /\ Op("stats") /\ UNCHANGED vars
               /\ Ev.ret.count = count
               /\ Ev.ret.numjobs = Cardinality({i \in JobIds : id2job[i] # NoJob})
               /\ \A c \in Channels : Ev.ret.busy[c] = Cardinality({s \in heap[c] : ~job[s].done})
-TrRestart  == Op("restart") /\ Restart /\ PostOK(Ev.post)
+StatsOf(p) == [c \in Channels |-> [success |-> p.stats[c].success, killed |-> p.stats[c].killed,
+                                    timeout |-> p.stats[c].timeout, error |-> p.stats[c].error]]
+TrRestart  == Op("restart") /\ RestartTo(StatsOf(Ev.post)) /\ PostOK(Ev.post)
 
 Consumed == l = Len(Tr) + 1
 Done     == Consumed /\ UNCHANGED tvars          \* the only legal way to stop
